@@ -87,6 +87,10 @@ let rop_of (s : string) : regop =
   | ["x"] -> Reopen
   | ["af"; e; a; nf; kw] -> AdvanceFCntUp (eui_of e, n_of a, n_of nf, b_of kw)
   | ["nd"; e] -> NextFCntDn (eui_of e)
+  | ["ss"; e; c; sent; fc] -> SetMessageSentTime (eui_of e, i64_of c, i64_of sent, n_of fc)
+  | ["ua"; e; fc; at] -> UpdateMessageAckTime (eui_of e, n_of fc, i64_of at)
+  | ["ra"; e] -> ResetActiveAcks (eui_of e)
+  | ["nu"; e] -> GetNextUnsentMessage (eui_of e)
   | _ -> failwith ("op: " ^ s)
 
 (* ---- service requests ---- *)
